@@ -490,9 +490,24 @@ FORALL_MUT = ["t.concat(1);", "t.delete(0);", "t.insert(0, 1);", "t.put(0, 5);",
 FORALL_REJECT = {"t.concat(1);", "t.delete(0);", "t.insert(0, 1);", "t.put(0, 5);", "t = tab(1, 1);", "t.concat(t);", "t.put(0, 5).concat(1);"}
 
 
+# the iterated table is an element of a table of tables: the variable that holds it is read-only while the loop runs
+ROW_MUT = ["tt.at(0).concat(1);", "tt.at(0).delete(0);", "tt.at(0).insert(0, 1);", "tt.at(0).put(0, 5);", "tt.put(0, tab(1, 1));", "tt.delete(0);",
+           "tt = tab(1, tab(1, 1));", "tt.at(1).concat(1);", "tt.at(0).put(0, 5).concat(1);", "tt.concat(tab(1, 1));", "u = tt; u.delete(0);", "zz = tt.at(0).count();"]
+ROW_ACCEPT = {"u = tt; u.delete(0);", "zz = tt.at(0).count();"}
+
+
 def forall_gen(tier):
     def gen():
         n = 0
+        for mtext in ROW_MUT:
+            for wrap in ("%s", "if true then %s end if;", "begin %s end;", "for k in 1 to 1 loop %s end loop;"):
+                for head in ("forall e in tt.at(0) loop", "forall e in tt.at(0) desc loop", "forall r in tt loop forall e in r loop"):
+                    tail = "end loop;" if head.count("forall") == 1 else "end loop; end loop;"
+                    prog = "%s %s %s" % (head, wrap % mtext, tail)
+                    ops = [op_ctx(), op_run("tt = tab(2, tab(3, 1)); zz = 0; u = tab(0, tab(0, 0));"), op_run(prog), op_dump(0, "TT"),
+                           op_run("tt.at(0).concat(7); tt.concat(tab(1, 2)); print tt.count() tt.at(0).count();"), op_out()]
+                    yield Case("f%d" % n, ops, {"kind": "forall", "m": mtext, "prog": prog, "row": True})
+                    n += 1
         for mtext in FORALL_MUT:
             for wrap in ("%s", "if true then %s end if;", "begin %s end;", "for k in 1 to 1 loop %s end loop;"):
                 body = wrap % mtext
@@ -597,6 +612,19 @@ def check_extra(case, res, vs):
             u = "unparsable dump %r" % tv
         if u and not collided:
             vs.append(Violation("decl:not-uniform", "after the puts: %s" % u, case))
+        return vs, True
+    if m["kind"] == "forall" and m.get("row"):
+        run = st[2]
+        if m["m"] not in ROW_ACCEPT and run.get("r") != "perr":
+            vs.append(Violation("forall:row-mutation-accepted", "%s was not rejected at compile time: %s" % (m["prog"], run), case))
+        if m["m"] in ROW_ACCEPT and run.get("r") != "ok":
+            vs.append(Violation("forall:row-read-rejected", "%s -> %s" % (m["prog"], run), case))
+        tv = st[3].get("vars", {}).get("TT")
+        if tv != "integer*2=T(integer*2)[T(integer*1)[i1,i1,i1],T(integer*1)[i1,i1,i1]]":
+            vs.append(Violation("forall:table-changed", "table is %r after the loop %s" % (tv, m["prog"]), case))
+        after, out = st[4], unhex(st[5].get("out", "")).decode()
+        if after.get("r") != "ok" or out != "34\n":
+            vs.append(Violation("forall:lock-left", "the table cannot be modified after the loop %s: %s %r" % (m["prog"], after, out), case))
         return vs, True
     if m["kind"] == "forall":
         run = st[2]
